@@ -639,7 +639,8 @@ PROPS = {
              "user.<name>, <name>., .<name>, upper case, alternative SNIs, unknown; ALPN lists: empty, each of {h3,h2,http/1.1,spdy/3, "
              "non-UTF-8, H2}, random pairs/triples - through the real TlsDemux::new (real PEM files, one per host entry so that the "
              "certificate path identifies the entry) and select; reload histories (valid, duplicate names, empty main, unloadable "
-             "certificate) on a live Core; 4 threads selecting during alternating reloads",
+             "certificate) on a live Core; 4 threads selecting during alternating reloads"
+             " Every pair of host classes sharing a name (16 pairs) must be refused at build time and at reload",
         explanation="theorems select_designated_host, no_entry_refused, exact_name_own_class, protocol_is_best_common, "
                     "common_protocol_accepted, default_only_when_no_alpn, unknown_alpn_ignored, tcp_never_h3, reload_* about TT/Model/Demux.lean",
         trusted=["rustls / BoringSSL present the certificate chain whose path select returned (not modelled)",
@@ -666,14 +667,20 @@ PROPS = {
         assumptions=[],
     ),
     "C02": dict(
-        suites=["c02"],
+        retry_on_failure=True,
+        suites=["c02", "c02live"],
         judge=judge_c02,
         level="proof",
         rule="3000 (thorough 40000) random duplex scripts: per direction 0-4 chunks (sizes 0,1,2,3,5,8) then EOF / read error / silence, "
              "delays incl. 0 and multiples of the idle timeout, sink quotas {0,1,2,3,all} per write, wait_writable delays, errors "
              "injected in read / write / wait_writable / consume / eof / flush; the real DuplexPipe::exchange runs on a paused-clock "
              "current-thread runtime; every endpoint call is logged with its virtual timestamp, replayed through the Lean machine "
-             "(which must predict each call) and checked by a direct oracle (prefix, credit, eof order, nothing after failure)",
+             "(which must predict each call) and checked by a direct oracle (prefix, credit, eof order, nothing after failure)"
+             " Live part (suite c02live): 29 (thorough 88) CONNECT tunnels through the real HTTP/1.1 and HTTP/2 codecs and the real direct "
+             "forwarder to a loopback origin, transports of 4 MiB and 2 KiB (the codecs block in their writes), 0 / 1 / 70000 / 300000 "
+             "(1000000) patterned bytes in either or both directions, client or origin taking 700-900 bytes per read, the origin or "
+             "the client ending its stream first: each side must have received exactly what the other sent, then the end of stream, "
+             "and never a reset",
         explanation="theorems stream_invariant, delivered_is_prefix, credit_*, finished_complete, eof_only_when_drained, eof_after_writes, "
                     "restart_preserves, no_call_after_failure, duplex_* about TT/Model/Pipe.lean for every answer sequence",
         trusted=["cancel-safety of Source::read (scripted sources are cancel-safe; real h2/TCP sources are assumed to be)",
@@ -808,7 +815,7 @@ PROPS = {
              "exported families, types and label names/values against METRICS.md",
         explanation="theorems cells_equal_objects, gauges_nonneg, all_clients_gone_sessions_udp_zero, all_clients_gone_everything_zero, "
                     "refused_connect_balanced, hanging_connect_released_by_timeout, counters_monotone, up_adds_exactly, "
-                    "down_adds_exactly, no_relay_no_bytes, udp_bytes_follow_multiplexer, documented_series, documented_paths about "
+                    "down_adds_exactly, no_relay_no_bytes, half_closed_tunnel_released_when_both_ended, udp_bytes_follow_multiplexer, documented_series, documented_paths about "
                     "TT/Model/Metrics.lean (which embeds TT/Model/UdpFlows.lean) and the table regenerated from METRICS.md",
         trusted=["which exported series the client->peer bytes feed is calibrated at the start of every run (3 bytes up, 5 down) and "
                  "then required to be the same everywhere: the property does not fix the orientation (the code feeds "
@@ -886,7 +893,9 @@ PROPS = {
              "uploads with Content-Length at 0, 1, 5, 70000, 120 MiB, 120 MiB + 1, +7, x, empty and more/less data than announced, other "
              "methods), body length counted by the client under a paused clock; ping markers over both protocols; a reverse-proxy "
              "WebSocket-style exchange against a real loopback origin with both values of the egress policy; an authenticator is "
-             "configured and no request carries credentials",
+             "configured and no request carries credentials"
+             " The reverse-proxy exchange outlives the session poll timeout (300 ms; late origin bytes at 900 ms), through a tunnel "
+             "host's path mask and on a connection of the reverse-proxy host itself",
         explanation="theorems demux_precedence, download_accept_iff, download_exact, download_completes, upload_accept_iff, else_400, "
                     "post_other_path_400, upload_done, upload_counts, x_original_protocol_present about TT/Model/Services.lean",
         trusted=["Rust's u32 FromStr as modelled by parseU32 (optional '+', digits, range)", "http crate Uri::path()",
